@@ -466,7 +466,10 @@ static void run_C13(const Args &a, long cs) {
 	}
 	for (int q = 0; q < ncorr; q++) {
 		int d = (int)r.below(p.nd);
-		switch (r.below(26)) {
+		switch (r.below(28)) {
+		case 26: if (!lam.empty()) { // a negative (or NaN) smoothing strength: the normal equations are indefinite; with a monotonic dimension the non-negative solver is handed a problem it asserts on
+			lam[r.below(lam.size())] = r.coin(0.8) ? -std::pow(10.0, r.U() * 6 - 3) : NAN; if (monodim == Table::no_monodim && r.coin(0.7)) monodim = (uint32_t)r.below(p.nd); applied.push_back("negative-or-NaN-smoothing"); } break;
+		case 27: if (!w.empty()) { size_t nneg = 1 + r.below(std::min<size_t>(w.size(), 6)); for (size_t e = 0; e < nneg; e++) w[r.below(w.size())] = r.coin(0.8) ? -(0.1 + r.U() * 5) : NAN; if (monodim == Table::no_monodim && r.coin(0.7)) monodim = (uint32_t)r.below(p.nd); applied.push_back("negative-or-NaN-weights"); } break;
 		case 24: case 25: { // valid but ill-posed: a handful of data points, a monotonic dimension and a vanishing penalty (penalty order above the order) or zero smoothing there:
 			// the normal equations are singular. Fitting must still complete or throw - the watchdog of the driver reports a fit that does neither.
 			monodim = (uint32_t)r.below(p.nd); size_t keep = 3 + r.below(6); while (idx.size() > keep) { size_t k2 = r.below(idx.size()); idx.erase(idx.begin() + k2); if (k2 < w.size()) w.erase(w.begin() + k2); if (k2 < p.y.size()) p.y.erase(p.y.begin() + k2); }
